@@ -112,7 +112,7 @@ UnaryValSeq == <<
     "rank", "extent0", "extent1", "alignment_of",
     "c:integral", "c:signed_integral", "c:unsigned_integral", "c:floating_point", "c:destructible",
     "c:default_initializable", "c:move_constructible", "c:copy_constructible", "c:movable", "c:copyable",
-    "c:semiregular", "c:swappable">>
+    "c:semiregular", "c:swappable", "c:equality_comparable", "c:regular">>
 UnaryTransSeq == <<
     "remove_const", "remove_volatile", "remove_cv", "add_const", "add_volatile", "add_cv",
     "remove_reference", "add_lvalue_reference", "add_rvalue_reference", "remove_pointer", "add_pointer",
@@ -257,6 +257,10 @@ TypeLaws(t) ==
     /\ (UVal("is_polymorphic", t) => ~UVal("is_trivially_copy_constructible", t) /\ ~UVal("is_aggregate", t))
     \* concept hierarchy [concepts.object]
     /\ (UVal("c:semiregular", t) => UVal("c:copyable", t) /\ UVal("c:default_initializable", t))
+    /\ (UPre("c:regular", t) /\ UVal("c:regular", t) => UVal("c:semiregular", t) /\ UVal("c:equality_comparable", t))
+    \* the dispatch tables list the same names
+    /\ SeqRange(UnaryValSeq) = UnaryValTraits /\ SeqRange(UnaryTransSeq) = UnaryTransTraits
+    /\ SeqRange(BinaryValSeq) = BinaryValTraits /\ SeqRange(BinaryTransSeq) = BinaryTransTraits
     /\ (UVal("c:copyable", t) => UVal("c:movable", t) /\ UVal("c:copy_constructible", t))
     /\ (UVal("c:movable", t) => UVal("c:move_constructible", t) /\ UVal("c:swappable", t) /\ UVal("is_object", t))
     /\ (UVal("c:copy_constructible", t) => UVal("c:move_constructible", t))
